@@ -39,7 +39,7 @@ def scaled(block=64):
 
 
 ROOT_NAMES = ["payload"] * 6 + ["Top 100% Hits", "pay load", "%s", "p%d", ".hidden", "-dash", "päyload",
-                                 "a&b=c", "[grp] x", "p\\q", "{0}", "100%"]
+                                 "a&b=d", "[grp] x", "p\\q", "{0}", "100%"]
 
 
 def make_case(rng, tier, damage, max_damage=4):
